@@ -1,8 +1,100 @@
 /-
-  C13 — property theorems (see DESIGN.md §6 C13).  Helper lemmas live in Proofs/.
+  C13 — collection builtins behave as pure functions matching the sequence / map / set model.
+
+  Property theorems only (proofs and helper lemmas live in Proofs/CoreLaws.lean).  The subject is
+  `Core.call name args`: the reflective binder's count/type checks followed by the builtin's body
+  (`Core.lean`, tied to lib/core/core.go by the correspondence engines on every run).
+  Vocabulary (Proofs/CoreLaws.lean):
+    `callOk name args r`  — `(name args…)` returns the value `r`;
+    `callErr name args`   — `(name args…)` is an error (a thrown value or a Go error), never a value;
+    `Seq s xs`            — `s` is a list or a vector whose elements are `xs`;
+    `holds p v`           — the predicate builtin `p` returns `true` on `v`.
+  Maps are association lists (`alookup`/`ainsert`/`aerase`), sets duplicate-free string lists.
 -/
-import LispModel.Eval
+import LispModel.Core
+import LispModel.Proofs.CoreLaws
 namespace LispModel.Props.C13
-open LispModel
+open LispModel LispModel.Core LispModel.CoreLaws
+
+/-! ## sequences -/
+
+/-- `(count '(x₁ … xₙ)) = n` -/
+theorem count_list (xs : List Val) (p) : callOk "count" [.list xs p] (.int xs.length) :=
+  CoreLaws.count_list xs p
+
+/-- `(count [x₁ … xₙ]) = n` -/
+theorem count_vector (xs : List Val) (p) : callOk "count" [.vec xs p] (.int xs.length) :=
+  CoreLaws.count_vector xs p
+
+/-- `(count nil) = 0` -/
+theorem count_nil : callOk "count" [.nil] (.int 0) := CoreLaws.count_nil
+
+/-- `(cons x s)` is the LIST `x :: elements s`, for a list or a vector `s` -/
+theorem cons_prepends {s xs} (x : Val) (h : Seq s xs) : callOk "cons" [x, s] (.list (x :: xs) none) :=
+  CoreLaws.cons_prepends x h
+
+/-- `(nth s n)` is the n-th element, for `0 ≤ n < count s` -/
+theorem nth_in_range {s xs} (h : Seq s xs) (n : Nat) (hn : n < xs.length) :
+    callOk "nth" [s, .int n] xs[n] := CoreLaws.nth_spec h n hn
+
+/-- a non-empty sequence decomposes: `first` is the head, `rest` the LIST of the tail, and `cons`
+    puts them together again (as a list with the same elements) -/
+theorem first_rest_decompose {s x xs} (h : Seq s (x :: xs)) :
+    callOk "first" [s] x ∧ callOk "rest" [s] (.list xs none) ∧
+    callOk "cons" [x, .list xs none] (.list (x :: xs) none) :=
+  ⟨CoreLaws.first_cons h, CoreLaws.rest_cons h, CoreLaws.cons_prepends x (Seq_list xs none)⟩
+
+/-- `(first nil) = nil`, `(rest nil) = ()`, `(first ()) = (first []) = nil`, `(rest ()) = (rest []) = ()` -/
+theorem first_rest_of_nothing :
+    callOk "first" [.nil] .nil ∧ callOk "rest" [.nil] (.list [] none) ∧
+    (∀ s, Seq s [] → callOk "first" [s] .nil ∧ callOk "rest" [s] (.list [] none)) :=
+  ⟨CoreLaws.first_nil, CoreLaws.rest_nil, fun _ h => ⟨CoreLaws.first_empty h, CoreLaws.rest_empty h⟩⟩
+
+/-! ## maps -/
+
+/-- `(get (assoc m k v) k) = v` -/
+theorem get_assoc_same (m : List (String × Val)) (k : String) (v : Val) :
+    ∃ r, callOk "assoc" [.map m, .str k, v] r ∧ callOk "get" [r, .str k] v :=
+  ⟨_, CoreLaws.assoc_map1 m k v, CoreLaws.get_assoc_same m k v⟩
+
+/-- `(get (assoc m k v) k') = (get m k')` for `k' ≠ k` -/
+theorem get_assoc_other (m : List (String × Val)) {k k' : String} (h : k ≠ k') (v : Val) :
+    ∃ r, callOk "assoc" [.map m, .str k, v] r ∧
+      Core.call "get" [r, .str k'] = Core.call "get" [.map m, .str k'] :=
+  ⟨_, CoreLaws.assoc_map1 m k v, CoreLaws.get_assoc_other m h v⟩
+
+/-- `(contains? (assoc m k v) k) = true` -/
+theorem contains_assoc (m : List (String × Val)) (k : String) (v : Val) :
+    ∃ r, callOk "assoc" [.map m, .str k, v] r ∧ callOk "contains?" [r, .str k] (.bool true) :=
+  ⟨_, CoreLaws.assoc_map1 m k v, CoreLaws.contains_assoc m k v⟩
+
+/-! ## sets -/
+
+/-- `(contains? s k)` is membership -/
+theorem contains_set (s : List String) (k : String) :
+    callOk "contains?" [.set s, .str k] (.bool (decide (k ∈ s))) := by
+  simpa using CoreLaws.contains_set s k
+
+/-- adding an element twice is the same as adding it once -/
+theorem set_idempotent (s : List String) (k : String) :
+    ∃ r, callOk "conj" [.set s, .str k] r ∧ callOk "conj" [r, .str k] r :=
+  ⟨_, CoreLaws.conj_set1 s k, by rw [callOk, CoreLaws.conj_set1, CoreLaws.sinsert_idem]⟩
+
+/-! ## errors -/
+
+/-- `nth` with a negative index or an index ≥ count is an error -/
+theorem nth_out_of_range_is_error {s xs} (h : Seq s xs) (i : Int) (hi : i < 0 ∨ (xs.length : Int) ≤ i) :
+    callErr "nth" [s, .int i] := CoreLaws.nth_out_of_range h i hi
+
+/-- a wrong argument count is an error for every fixed-arity builtin -/
+theorem arity_errors {name ps} (hs : Core.sigOf name = some (.fixed ps)) (args : List Val)
+    (hl : args.length ≠ ps.length) : callErr name args :=
+  callErr_of (CoreLaws.arity_error hs args hl) rfl
+
+/-! ## predicates -/
+
+/-- no value satisfies two different type predicates -/
+theorem type_predicates_exclusive {a b} (ha : a ∈ typePreds) (hb : b ∈ typePreds) (hab : a ≠ b) (v : Val) :
+    ¬ (holds a v ∧ holds b v) := CoreLaws.type_predicates_exclusive ha hb hab v
 
 end LispModel.Props.C13
